@@ -191,6 +191,25 @@ func replayFile(path string, e *emitter) {
 				dec := shadow[f[1]].decide(rq)
 				f[5] = dec
 				e.emit(strings.Join(f, "\t"), runRequest(mws[f[1]], rq)+"\t||\t"+dec)
+			case "pair":
+				switch f[1] {
+				case "C10":
+					r1 := request{method: decBytes(f[4]), hdrs: decKVs(f[5]), pre: decKVs(f[6])}
+					pairC10Case(e, *decConfig(f[2]), f[3] == "1", r1, request{hdrs: decKVs(f[7])})
+				case "C09":
+					pairC09(e, *decConfig(f[2]), request{method: decBytes(f[3]), hdrs: decKVs(f[4]), pre: decKVs(f[5])})
+				case "C15":
+					pairTwin(e, *decConfig(f[2]), *decConfig(f[3]), f[4] == "1", request{method: decBytes(f[5]), hdrs: decKVs(f[6]), pre: decKVs(f[7])})
+				case "C06":
+					var rqs []request
+					for _, x := range f[3:] {
+						p := strings.Split(x, "\x1f")
+						rqs = append(rqs, request{method: decBytes(p[0]), hdrs: decKVs(p[1]), pre: decKVs(p[2])})
+					}
+					roundTrip(e, *decConfig(f[2]), rqs)
+				default:
+					e.emit(line, "UNKNOWN-OP")
+				}
 			default:
 				e.emit(line, "UNKNOWN-OP")
 			}
